@@ -230,7 +230,6 @@ public:
   }
 
   void finalize() override {
-    llvm::MD5::MD5Result output;
     hasher.final(output);
   }
 
